@@ -29,7 +29,8 @@ MANIFEST = dict(
          'two roots, header check passed, state root level-0 hash = state hash from the header, proved account cell level-0 hash = REPRESENTATION hash of the claimed state (account check). '
          'The all-equal path of every scenario accepts. Concrete pruned trees (completeness for all prunings) rest on C02.'
          ' Completeness ingredients: level-mask union of ordinary cells and level selection of get_hash/get_depth for every mask and level.'
-         ' A claimed state that is an ordinary cell above a pruned part (level 1, not exotic: equal level-0 hash, different representation hash) is rejected like the pruned branch is.',
+         ' A claimed state that is an ordinary cell above a pruned part (level 1, not exotic: equal level-0 hash, different representation hash) is rejected like the pruned branch is.'
+         ' Claimed states without data bits (the empty cell, a bare reference holder) are compared like any other.',
     note='trusted: interpreter, rope model, SHA-256 terms distinct unless identical. ShardStateUnsplit.deserialize is summarised (its conformance is C16). Not decided: completeness for arbitrary concrete prunings.',
     design_ref='DESIGN.md section 4 C11')
 
